@@ -293,7 +293,8 @@ class H5Writer:
                     if len(values) > 0:
                         values[np.isnan(values)] = FLOAT_NDV
 
-                if np.issubdtype(values.dtype, np.str_):
+                # text arrays, including an emptied one read back as 'object'
+                if np.issubdtype(values.dtype, np.str_) or values.dtype == object:
                     values = values.astype(h5py.special_dtype(vlen=str))
 
             attr_handle.create_dataset(
